@@ -109,12 +109,9 @@ Definition sphere_BH (f : field) (mu0 : T) (o : V3) (d : T) (P : V3) : V3 :=
      0 zero-length segment, 1 on-line mask (norm_o4 < 1e-15), 2 foot beyond p1 side with
      |.|>1 (mask2), 3 mask3, 4 mask4 (foot between the end points).
    As of /repo ed8562c the two foot-beyond-an-end cases use the cancellation-free deltaSin_beyond. *)
-Definition polyline_H_br (o p1 p2 : V3) (cur : T) : (nat * V3) :=
-  if veqb p1 p2 then (0%nat, zero3) else
-  let n12 := vnorm (vsub p1 p2) in
-  let q1 := vdivs p1 n12 in
-  let q2 := vdivs p2 n12 in
-  let qo := vdivs o n12 in
+(* the part of current_polyline_Hfield after `make dimensionless`: qo, q1, q2 are the observer and
+   the end points divided by the segment length n12 *)
+Definition polyline_norm (qo q1 q2 : V3) (n12 cur : T) : (nat * V3) :=
   let t := vdot (vsub qo q1) (vsub q1 q2) in
   let q4 := vadd q1 (vscale t (vsub q1 q2)) in
   let no4 := vnorm (vsub qo q4) in
@@ -137,6 +134,11 @@ Definition polyline_H_br (o p1 p2 : V3) (cur : T) : (nat * V3) :=
   let comp (e : T) := dS / no4 * e / n12 * cur / (c4 * cpi) in
   let '(e0, e1, e2) := eB in
   (br, (comp e0, comp e1, comp e2)).
+
+Definition polyline_H_br (o p1 p2 : V3) (cur : T) : (nat * V3) :=
+  if veqb p1 p2 then (0%nat, zero3) else
+  let n12 := vnorm (vsub p1 p2) in
+  polyline_norm (vdivs o n12) (vdivs p1 n12) (vdivs p2 n12) n12 cur.
 
 Definition polyline_H (o p1 p2 : V3) (cur : T) : V3 := snd (polyline_H_br o p1 p2 cur).
 
